@@ -34,6 +34,7 @@ func init() {
 		vapiPath + ".I64":       natNondet(types.Int64),
 		vapiPath + ".Bool":      natNondet(types.Bool),
 		vapiPath + ".Int":       natNondetInt,
+		vapiPath + ".Search":    natSearch,
 		vapiPath + ".Bytes32":   natBytes32,
 		vapiPath + ".Assume":    natAssume,
 		vapiPath + ".Assert":    natAssert,
@@ -180,6 +181,16 @@ func natNondetInt(fr *frame, fn *ssa.Function, args []value) value {
 	if s, ok := v.(sym); ok {
 		tt := i.tt
 		i.assume(tt.And(tt.Cmp("bvsle", tt.Const(64, big.NewInt(int64(lo))), s.t), tt.Cmp("bvsle", s.t, tt.Const(64, big.NewInt(int64(hi))))))
+	}
+	return v
+}
+
+// Search(name, n): a value in [0,n) (natively: a searchable replay variable).
+func natSearch(fr *frame, fn *ssa.Function, args []value) value {
+	i := fr.i
+	v := i.nondet(args[0].(string), types.Uint64)
+	if s, ok := v.(sym); ok {
+		i.assume(i.tt.Cmp("bvult", s.t, i.tt.toTerm(args[1])))
 	}
 	return v
 }
